@@ -29,7 +29,7 @@ demo_run "$P"; d0=$?
 rm -rf "$P"
 echo "$name demo: changed_tree_rc=$d1 unchanged_tree_rc=$d0"
 for c in "${checks[@]}"; do
-  out=$(cd "$HERE" && VERIF_REPO="$S" VERIF_NORACE="${SEED_NORACE:-1}" ./check "$c" "${SEED_TIER:-quick}" 2>&1); rc=$?
+  out=$(cd "$HERE" && VERIF_EVIDENCE_DIR="/tmp/seed-evidence/$name" VERIF_REPO="$S" VERIF_NORACE="${SEED_NORACE:-1}" ./check "$c" "${SEED_TIER:-quick}" 2>&1); rc=$?
   nv=$(printf '%s\n' "$out" | grep -c '^VIOLATION')
   first=$(printf '%s\n' "$out" | grep -A2 '^VIOLATION' | sed -n 2p | cut -c1-160)
   echo "$name check=$c tier=${SEED_TIER:-quick} exit=$rc violations=$nv :: $first"
